@@ -136,6 +136,16 @@ func (p *pathCtx) template(parts []value) (symStr, []value) {
 			if len(x) == 0 {
 				continue
 			}
+			if minPos == maxPos {
+				// concrete position: the bytes themselves are constants
+				for j := 0; j < len(x); j++ {
+					buf.b[minPos+j] = ts.BV(uint64(x[j]), 8)
+				}
+				pos = ts.BvBin(OpBvAdd, pos, ts.BV(uint64(len(x)), w))
+				minPos += len(x)
+				maxPos += len(x)
+				continue
+			}
 			for i := minPos; i <= maxPos && i+len(x) <= total; i++ {
 				here := ts.Eq(pos, ts.BV(uint64(i), w))
 				if here.IsFalse() {
@@ -152,6 +162,14 @@ func (p *pathCtx) template(parts []value) (symStr, []value) {
 			maxPos += len(x)
 		case structure:
 			fs := fieldSpec{name: x[0].(string), min: int(asInt64(x[1])), max: int(asInt64(x[2])), class: x[3].(string)}
+			if len(x) > 4 {
+				if split, _ := x[4].(bool); split && fs.max > fs.min {
+					// case split on the field's length: one path per length, later parts keep concrete positions
+					k := p.choose(fs.max-fs.min+1, "len:"+fs.name)
+					fs.min += k
+					fs.max = fs.min
+				}
+			}
 			bc, err := parseClass(fs.class)
 			if err != nil {
 				p.abort("unsupported", err.Error())
@@ -328,6 +346,9 @@ func init() {
 		p := fr.i.p
 		a, b := p.strOf(args[1]), p.strOf(args[2])
 		id := args[0].(string)
+		if !p.siteWanted(id) {
+			return nil
+		}
 		if a.buf == b.buf && !(a.off == b.off) {
 			// views of one buffer: identical position and length is a sufficient condition; try it first
 			cheap := p.ts.And(p.ts.Eq(a.off, b.off), p.ts.Eq(a.n, b.n))
@@ -336,6 +357,7 @@ func init() {
 				atomic.AddInt64(&st.Evaluated, 1)
 				atomic.AddInt64(&st.Symbolic, 1)
 				atomic.AddInt64(&st.Discharged, 1)
+				atomic.AddInt64(&st.SymDischarged, 1)
 				p.addPC(cheap)
 				return nil
 			}
@@ -450,6 +472,15 @@ func init() {
 		}
 		sort.Strings(keys)
 		return sliceOfStrings(keys)
+	}
+	st[V+"TimeLE"] = func(fr *frame, args []value) value {
+		p := fr.i.p
+		a, b := args[0].(structure), args[1].(structure)
+		// engine times carry wall=0: compare seconds (ext)
+		if !p.eqTerm(a[0], uint64(0)).IsTrue() || !p.eqTerm(b[0], uint64(0)).IsTrue() {
+			p.abort("unsupported", "TimeLE on a time with wall bits")
+		}
+		return p.mkBool(p.ts.Cmp(OpBvSle, p.i64(a[1]), p.i64(b[1])))
 	}
 	st[V+"Unix"] = func(fr *frame, args []value) value {
 		// time.Time with the given seconds offset from the engine's clock base
